@@ -340,7 +340,7 @@ META = {
                         're-yield-of-processed-target', 'victim-raised', 'object-causes', 'interrupt-from-callback'],
     'bounds': {'quick': 'one victim waiting on a timeout / shared event / child / any_of or all_of condition over two timeouts; handlers finish, re-wait, wait for another timeout, raise; '
                         '1-2 interrupters issuing <= 2 interrupts at symbolic instants with symbolic causes; optional co-waiter; victim '
-                        'spawned and interrupted in one instant; self-interrupt attempt',
+                        'spawned and interrupted in one instant; self-interrupt attempt; condition targets (any_of / all_of); arbitrary objects as causes; interrupts issued from a plain callback and from a co-waiter of the victim\'s event (open finding)',
                'thorough': '<= 4 interrupts from <= 3 interrupters (1, 2, 3, 1+1, 2+1, 1+1+1, 2+2); handler sequences of three steps'},
     'assumptions': ['"ordinary events" observed are the timeouts that resume harness processes'],
     'stubs': [],
